@@ -1,4 +1,179 @@
-import CTM.Model.Sparse
+/-
+  C13 — on-disk sparse transposition and reshaping preserve the matrix.
+
+  Theorems about the executable model `CTM/Model/Sparse.lean` (tied to
+  `utils/csc_to_csr.py`, `utils/csc_to_csr_parallel.py`, `utils/anndata_utils.py`,
+  `utils/h5_utils.py` by the correspondence suite `harness/props/c13.py`).
+  All of them hold for every matrix, every load-chunk size `≥ 1`, every element
+  budget, every index sub-range, every worker count: there is no size bound.
+
+  Vocabulary: `Mat α = (indptr, indices, data)`; `WFptr ip n nnz` — `ip` has
+  `n + 1` entries, is non-decreasing, starts at 0 and ends at `nnz`;
+  `SlicesNodup M n` — indices are unique within each of the `n` major slices;
+  `toDense zero M nMajor nMinor` — the dense matrix the arrays stand for
+  (`rowSpec`: scatter of slice `i`); `transposeDense` — its transpose.
+-/
+import CTM.Lemmas.Sparse
+
 namespace CTM.C13
-theorem placeholder_true : True := trivial
+open CTM.Chunking CTM.Sparse
+
+/-- the running example of the non-vacuity checks: the 3×3 matrix
+`[[1,0,2],[0,3,0],[4,0,5]]` in compressed form -/
+def M0 : Mat Nat := ⟨[0, 2, 3, 5], [0, 2, 1, 0, 2], [1, 2, 3, 4, 5]⟩
+
+/-! ## "for any memory budget": the loops that cut the work -/
+
+/-- *"the loop nests that cut the work by element budget"* — the blocks
+`[r0, r1)` of minor indices written per pass of `transpose_sparse_matrix_on_disk`
+partition `[0, nMinor)` in order, whatever the pointer array and whatever the
+element budget `el` (also `el = 0`). -/
+theorem blocks_partition (csrIndptr : List Nat) (el : Nat) :
+    (blockCuts csrIndptr el).flatMap rangeOf = List.range (csrIndptr.length - 1) :=
+  blockCuts_cover csrIndptr el
+
+example : blockCuts [0, 2, 3, 5] 2 = [(0, 1), (1, 3)] := by decide
+
+/-- every block is a non-empty range of minor indices; every block but the
+last holds at least `el` stored entries and no proper prefix of a block does
+(the budget is overshot by at most one slice). -/
+theorem blocks_respect_budget (csrIndptr : List Nat) (el : Nat) :
+    ∀ p ∈ blockCuts csrIndptr el,
+      p.1 < p.2 ∧ p.2 ≤ csrIndptr.length - 1 ∧
+      (p.2 < csrIndptr.length - 1 → el ≤ ptr csrIndptr p.2 - ptr csrIndptr p.1) ∧
+      (∀ c, p.1 < c → c < p.2 → ptr csrIndptr c - ptr csrIndptr p.1 < el) := by
+  intro p hp
+  have := blockCutsAux_bounds csrIndptr el _ _ p hp
+  exact ⟨this.2.1, this.2.2.1, this.2.2.2.1, this.2.2.2.2⟩
+
+example : (0, 1) ∈ blockCuts [0, 2, 3, 5] 2 := by decide
+
+/-- the load chunks `indices[i0:i1]`, `i0 in range(0, n, lo)`, concatenate to
+the whole array for every chunk size `lo ≥ 1` (fill pass and counting pass). -/
+theorem load_chunks_cover {β} (l : List β) (lo : Nat) (h : 1 ≤ lo) :
+    (sliceChunks lo l).flatten = l :=
+  sliceChunks_flatten l lo h
+
+example : sliceChunks 2 [10, 11, 12, 13, 14] = [[10, 11], [12, 13], [14]] := by decide
+
+/-- the enforced minimum chunk sizes: whatever `max_gb` (also 0 or negative)
+and whatever the dtypes, the three chunk sizes derived from the memory budget
+are at least 100, hence `≥ 1` as the theorems below need. -/
+theorem budget_floor (countGb loadGb elGb : Rat) (dataBytes indptrBytes indicesBytes : Nat) :
+    100 ≤ (Budget.of countGb loadGb elGb dataBytes indptrBytes indicesBytes).loCount ∧
+    100 ≤ (Budget.of countGb loadGb elGb dataBytes indptrBytes indicesBytes).lo ∧
+    100 ≤ (Budget.of countGb loadGb elGb dataBytes indptrBytes indicesBytes).el := by
+  unfold Budget.of
+  exact ⟨Nat.le_max_left _ _, Nat.le_max_left _ _, Nat.le_max_left _ _⟩
+
+/-! ## the transposition at bucket level -/
+
+/-- **bucket level** (DESIGN §5 C13, level 1).  For every load-chunk size
+`lo ≥ 1`, every element budget `el` and every index sub-range `sl`, the fill
+pass writes, for minor index `v = 0, 1, …`, the entries with (slice-shifted)
+minor index `v` in storage order — the stable bucketing of the entries by minor
+index.  `entriesOf M` is the list of stored entries tagged with their major
+index exactly as the code computes it (`searchsorted(indptr, ·, 'right') - 1`). -/
+theorem transpose_buckets {α} (M : Mat α) (sl : Option (Nat × Nat)) (csrIndptr : List Nat)
+    (lo el : Nat) (hlo : 1 ≤ lo) :
+    transposeEntries (entriesOf M) sl csrIndptr lo el
+      = (List.range (csrIndptr.length - 1)).flatMap fun v =>
+          (sliceEntries sl (entriesOf M)).filter (·.minor == v) :=
+  transposeEntries_eq_bucketSpec _ sl csrIndptr lo el hlo (entriesOf_majorsSorted M)
+
+example : (transposeEntries (entriesOf M0) none [0, 2, 3, 5] 2 1).map (·.val)
+    = [1, 4, 3, 2, 5] := by decide
+
+/-- **counting pass** (`_calculate_csr_indptr`): for every load-chunk size
+`≥ 1` and every index sub-range the pointer array is
+`k ↦ #{entries whose (slice-shifted) minor index is < k}` and `n_non_zero` is
+the number of entries inside the sub-range. -/
+theorem count_pass (indices : List Nat) (indicesMax : Nat) (sl : Option (Nat × Nat))
+    (loCount : Nat) (h : 1 ≤ loCount)
+    (hr : ∀ x ∈ sliceMinors sl indices, x < nMinorOf indicesMax sl) :
+    calcIndptr indices indicesMax sl loCount =
+      .ok ((List.range (nMinorOf indicesMax sl + 1)).map
+            (fun k => (sliceMinors sl indices).countP (· < k)),
+           (sliceMinors sl indices).length) :=
+  calcIndptr_ok indices indicesMax sl loCount h hr
+
+example : calcIndptr [0, 2, 1, 0, 2] 3 (some (1, 3)) 2 = .ok ([0, 1, 3], 3) := rfl
+
+/-- a minor index outside `[0, indices_max)` makes the counting pass fail
+(`IndexError`), it is never silently dropped or wrapped. -/
+theorem count_pass_rejects (indices : List Nat) (indicesMax loCount : Nat) (h : 1 ≤ loCount)
+    (x : Nat) (hx : x ∈ indices) (hbig : indicesMax ≤ x) :
+    calcIndptr indices indicesMax none loCount = .error .indexOutOfRange := by
+  unfold calcIndptr
+  have hflat : ((sliceChunks loCount indices).map (sliceMinors none)).flatten = indices := by
+    rw [sliceMinors_flatten, sliceChunks_flatten indices loCount h]; rfl
+  have : ((sliceChunks loCount indices).map (sliceMinors none)).any
+      (·.any (· ≥ nMinorOf indicesMax none)) = true := by
+    rw [any_any_flatten, hflat, List.any_eq_true]
+    exact ⟨x, hx, by simp [nMinorOf]; omega⟩
+  simp only [this, if_true]
+
+example : calcIndptr [0, 3, 1] 3 none 2 = .error .indexOutOfRange := rfl
+
+/-! ## "yields exactly the transpose" -/
+
+/-- **`transpose_correct`** — *"a monotone pointer array ending at the number
+of stored entries, minor indices sorted and unique within each major slice,
+and every stored value at its transposed position, for any memory budget"*.
+
+For every well-formed input (`WFptr`; input indices need not be sorted), every
+budget with chunk sizes `≥ 1` (any element budget), the serial transposition
+succeeds and its output `out`
+* has a pointer array with `nMinor + 1` entries, starting at 0,
+  non-decreasing, ending at the number of stored entries, and `indices` /
+  `data` of that length;
+* cuts, for every `v`, exactly the major indices / values of the entries with
+  minor index `v` in storage order;
+* has strictly increasing indices in every slice if the input's indices are
+  unique within each major slice;
+* denotes the transposed dense matrix. -/
+theorem transpose_correct {α} (zero : α) (M : Mat α) (nMajor nMinor : Nat) (B : Budget)
+    (hlo : 1 ≤ B.lo) (hc : 1 ≤ B.loCount)
+    (w : WFptr M.indptr nMajor M.indices.length) (hlen : M.data.length = M.indices.length)
+    (hr : ∀ x ∈ M.indices, x < nMinor) :
+    ∃ out, transposeOnDisk M nMinor none B = .ok out ∧
+      WFptr out.indptr nMinor M.indices.length ∧
+      out.indices.length = M.indices.length ∧ out.data.length = M.indices.length ∧
+      (∀ v, v < nMinor →
+        slice out.indices (ptr out.indptr v) (ptr out.indptr (v + 1))
+          = ((entriesOf M).filter (·.minor == v)).map (·.major) ∧
+        slice out.data (ptr out.indptr v) (ptr out.indptr (v + 1))
+          = ((entriesOf M).filter (·.minor == v)).map (·.val)) ∧
+      (SlicesNodup M nMajor → ∀ v, v < nMinor →
+        (slice out.indices (ptr out.indptr v) (ptr out.indptr (v + 1))).Pairwise (· < ·)) ∧
+      toDense zero out nMinor nMajor
+        = transposeDense zero (toDense zero M nMajor nMinor) nMinor := by
+  have hE : ∀ e ∈ entriesOf M, e.minor < nMinor := by
+    intro e he
+    apply hr
+    rw [← entriesOf_map_minor M hlen]
+    exact List.mem_map_of_mem he
+  refine ⟨canonOut (entriesOf M) nMinor, ?_, ?_, ?_, ?_, ?_, ?_, ?_⟩
+  · exact transposeOnDisk_eq M nMinor none B hlo hc hlen hr
+  · rw [← entriesOf_length M hlen]; exact canonOut_wfptr _ _ hE
+  · rw [← entriesOf_length M hlen]; exact (canonOut_lengths _ _ hE).1
+  · rw [← entriesOf_length M hlen]; exact (canonOut_lengths _ _ hE).2
+  · intro v hv; exact canonOut_slice _ _ _ hv
+  · intro hn v hv
+    rw [(canonOut_slice _ _ _ hv).1]
+    exact bucket_strictly_increasing _ (entriesOf_majorsSorted M)
+      (entriesOf_uniqueCoords M nMajor w hlen hn) v
+  · exact canonOut_toDense zero M nMajor nMinor w
+
+/- non-vacuity: the hypotheses hold for `M0` and the conclusion is what the
+model computes -/
+example : WFptr M0.indptr 3 5 := ⟨rfl, by decide, rfl, rfl⟩
+example : SlicesNodup M0 3 := by
+  intro i hi
+  have : i = 0 ∨ i = 1 ∨ i = 2 := by omega
+  rcases this with h | h | h <;> subst h <;> decide
+example : transposeOnDisk M0 3 none ⟨2, 2, 1⟩
+    = .ok ⟨[0, 2, 3, 5], [0, 2, 1, 0, 2], [1, 4, 3, 2, 5]⟩ := rfl
+example : toDense 0 M0 3 3 = [[1, 0, 2], [0, 3, 0], [4, 0, 5]] := by decide
+
 end CTM.C13
